@@ -20,8 +20,7 @@ From stdpp Require Import gmap.
 Implicit Types (h : heap) (F : forest) (p x y i b : positive) (d : rdata).
 
 (** * the list model *)
-Definition rd_set_number d (n : dbl) : rdata := mkRD (rd_type d) (rd_vstr d) (sat_int n) n (rd_key d) (rd_ref d).
-Definition rd_set_int d (z : Z) : rdata := mkRD (rd_type d) (rd_vstr d) z (dbl_of_int z) (rd_key d) (rd_ref d).
+(** [rd_set_number], [rd_set_int], [rd_set_bool], [spec_update] are CoreSpec's *)
 Definition rd_set_type d (t : Z) : rdata := mkRD t (rd_vstr d) (rd_vint d) (rd_vdbl d) (rd_key d) (rd_ref d).
 Definition rd_set_vstr d (v : ptr) : rdata := mkRD (rd_type d) v (rd_vint d) (rd_vdbl d) (rd_key d) (rd_ref d).
 
@@ -29,9 +28,8 @@ Definition rd_set_vstr d (v : ptr) : rdata := mkRD (rd_type d) v (rd_vint d) (rd
 Definition bool_type (t : Z) (bv : bool) : Z :=
   Z.lor (Z.land t (Z.lnot (Z.lor c_cJSON_False c_cJSON_True))) (if bv then c_cJSON_True else c_cJSON_False).
 
-(** apply [f] to the data of node [x] *)
-Definition spec_update (F : forest) (x : positive) (f : rdata -> rdata) : forest :=
-  match find_tree x F with Some n => set_data x (f (tdata n)) F | None => F end.
+Lemma rd_set_bool_eq d bv : rd_set_bool d bv = rd_set_type d (bool_type (rd_type d) bv).
+Proof. reflexivity. Qed.
 
 Definition spec_set_number F (object : ptr) (n : dbl) : forest * dbl :=
   match object with Some x => (spec_update F x (fun d => rd_set_number d n), n) | None => (F, n) end.
@@ -208,3 +206,382 @@ Qed.
 Lemma cJSON_SetBoolValue_null h F (bv : bool) :
   spec_set_bool F None bv = (F, c_cJSON_Invalid) /\ cJSON_SetBoolValue None bv h = Ret (c_cJSON_Invalid, h).
 Proof. done. Qed.
+
+(** * cJSON_SetValuestring *)
+
+(** the list model: [strs] the string heap, [copy] the block cJSON_strdup returns when it is
+    called (None = refused).  Results: the forest and the returned pointer; the CONTENTS of
+    the valuestring block after an in-place copy are stated in [cJSON_SetValuestring_inplace]. *)
+Definition spec_set_valuestring (strs : gmap positive bytes) F (object valuestring copy : ptr) : forest * ptr :=
+  match object, valuestring with
+  | Some x, Some sb =>
+      match find_tree x F with
+      | Some n =>
+          let d := tdata n in
+          if negb (has_flag (rd_type d) c_cJSON_String) || is_ref d then (F, None) else
+          match rd_vstr d with
+          | None => (F, None)
+          | Some vb =>
+              let len b := length (match strs !! b with Some s => cstr s | None => [] end) in
+              if len sb <=? len vb then (if decide (sb = vb) then (F, None) else (F, Some vb))
+              else match copy with
+                   | Some nb => (set_data x (rd_set_vstr d (Some nb)) F, Some nb)
+                   | None => (F, None)
+                   end
+          end
+      | None => (F, None)
+      end
+  | _, _ => (F, None)
+  end.
+
+Lemma cstr_app_zero_rest (s r : bytes) : Forall (fun c => c <> 0%Z) s -> cstr (s ++ 0%Z :: r) = s.
+Proof.
+  induction s as [|c s IH]; intros H; [done|]. apply Forall_cons in H as [Hc H]. cbn.
+  destruct (Z.eqb_spec c 0); [done|]. by rewrite IH.
+Qed.
+Lemma str_at_nonzero h b : Forall (fun c => c <> 0%Z) (str_at h b).
+Proof. unfold str_at. destruct (h_str h !! b); [apply cstr_nonzero'|constructor]. Qed.
+
+(** the valuestring block of a non-reference node is owned by the forest and is no node *)
+Lemma vstr_owned h F x d (ks : list positive) vb :
+  WF h F -> (x, d, ks) ∈ flat F -> is_ref d = false -> rd_vstr d = Some vb ->
+  vb ∈ owned F /\ vb <> x /\ vb ∉ ids F.
+Proof.
+  intros W Hn Hr Hv. pose proof (wf_owned_nodup _ _ W) as NDo.
+  apply elem_of_Permutation in Hn as [FL HFL]. unfold owned in *. rewrite HFL in NDo. rewrite HFL.
+  rewrite owned_fl_cons in *. unfold owned_fn in *. cbn [fn_id fn_data fst snd] in *.
+  assert (Hin : vb ∈ owned_strs d) by (unfold owned_strs; rewrite Hr, Hv; apply elem_of_app; left; by left).
+  apply NoDup_app in NDo as (ND1 & ND12 & _). apply NoDup_cons in ND1 as [Hx _].
+  split; [apply elem_of_app; left; by right|]. split; [by intros ->|].
+  rewrite ids_flat, HFL. cbn. intros Hi. apply elem_of_cons in Hi as [->|Hi]; [done|].
+  apply (ND12 vb); [by right|]. apply elem_of_list_fmap in Hi as (e & -> & He).
+  apply elem_of_owned_fl. exists e. split; [done|]. by left.
+Qed.
+
+Section SetValuestring.
+  Variable oracle : nat -> bool.
+
+  Lemma cJSON_SetValuestring_null h F valuestring copy :
+    spec_set_valuestring (h_str h) F None valuestring copy = (F, None) /\
+    cJSON_SetValuestring oracle None valuestring h = Ret (None, h).
+  Proof. done. Qed.
+
+  (** not a string, a reference, no valuestring, or a NULL argument: refused, nothing changes *)
+  Lemma cJSON_SetValuestring_refused h F x d cs valuestring copy :
+    WF h F -> find_tree x F = Some (T x d cs) ->
+    has_flag (rd_type d) c_cJSON_String = false \/ is_ref d = true \/ rd_vstr d = None \/ valuestring = None ->
+    spec_set_valuestring (h_str h) F (Some x) valuestring copy = (F, None) /\
+    cJSON_SetValuestring oracle (Some x) valuestring h = Ret (None, h).
+  Proof.
+    intros W Hx H. destruct (find_tree_live_dat _ _ _ _ _ W Hx) as [Hl Hd]. split.
+    - unfold spec_set_valuestring. destruct valuestring as [sb|]; [|done]. rewrite Hx. cbn [tdata].
+      destruct (has_flag (rd_type d) c_cJSON_String); [|done]. destruct (is_ref d); [done|]. cbn [negb orb].
+      destruct (rd_vstr d); [|done]. destruct H as [H|[H|[H|H]]]; done.
+    - unfold cJSON_SetValuestring. cbn [is_null].
+      rewrite (bindM_Ret _ _ _ _ _ (run_get_type_plain _ _ _ Hl Hd)). cbn [nd_type mk_dat].
+      destruct (has_flag (rd_type d) c_cJSON_String) eqn:Hs; [|done]. cbn [negb].
+      rewrite has_flag_is_ref. destruct (is_ref d) eqn:Hr; [done|].
+      rewrite (bindM_Ret _ _ _ _ _ (run_get_vstr_plain _ _ _ Hl Hd)). cbn [nd_vstr mk_dat].
+      destruct (rd_vstr d) as [vb|] eqn:Hv; [|done]. destruct valuestring as [sb|]; [|done].
+      destruct H as [H|[H|[H|H]]]; done.
+  Qed.
+
+  (** the common prefix of the remaining exits *)
+  Lemma svs_prefix h F x d cs vb sb :
+    WF h F -> find_tree x F = Some (T x d cs) ->
+    has_flag (rd_type d) c_cJSON_String = true -> is_ref d = false -> rd_vstr d = Some vb ->
+    Readable h sb -> Readable h vb ->
+    cJSON_SetValuestring oracle (Some x) (Some sb) h =
+    (if (length (str_at h sb) <=? length (str_at h vb))%nat then
+       if ptr_eqb (Some sb) (Some vb) then ret None else
+       old <~ ld_str (Some vb) ;;
+       st_str (Some vb) (str_at h sb ++ 0%Z :: skipn (S (length (str_at h sb))) old) ;;;
+       get_vstr (Some x)
+     else
+       copy <~ cJSON_strdup oracle (Some sb) ;;
+       if is_null copy then ret None else
+       ovs4 <~ get_vstr (Some x) ;;
+       when (negb (is_null ovs4)) (ovs5 <~ get_vstr (Some x) ;; cJSON_free ovs5) ;;;
+       set_vstr (Some x) copy ;;;
+       ret copy) h.
+  Proof.
+    intros W Hx Hs Hr Hv HRs HRv. destruct (find_tree_live_dat _ _ _ _ _ W Hx) as [Hl Hd].
+    unfold cJSON_SetValuestring. cbn [is_null].
+    rewrite (bindM_Ret _ _ _ _ _ (run_get_type_plain _ _ _ Hl Hd)). cbn [nd_type mk_dat].
+    rewrite Hs. cbn [negb]. rewrite has_flag_is_ref, Hr.
+    rewrite (bindM_Ret _ _ _ _ _ (run_get_vstr_plain _ _ _ Hl Hd)). cbn [nd_vstr mk_dat]. rewrite Hv. cbn [is_null orb].
+    rewrite (bindM_Ret _ _ _ _ _ (run_ld_cstr_readable _ _ HRs)).
+    rewrite (bindM_Ret _ _ _ _ _ (run_get_vstr_plain _ _ _ Hl Hd)). cbn [nd_vstr mk_dat]. rewrite Hv.
+    rewrite (bindM_Ret _ _ _ _ _ (run_ld_cstr_readable _ _ HRv)).
+    destruct (length (str_at h sb) <=? length (str_at h vb))%nat; [|reflexivity].
+    rewrite (bindM_Ret _ _ _ _ _ (run_get_vstr_plain _ _ _ Hl Hd)). cbn [nd_vstr mk_dat]. rewrite Hv.
+    destruct (ptr_eqb (Some sb) (Some vb)); [done|].
+    rewrite (bindM_Ret _ _ _ _ _ (run_get_vstr_plain _ _ _ Hl Hd)). cbn [nd_vstr mk_dat]. rewrite Hv. reflexivity.
+  Qed.
+
+  Lemma spec_svs_unfold h F x d cs vb sb copy :
+    find_tree x F = Some (T x d cs) ->
+    has_flag (rd_type d) c_cJSON_String = true -> is_ref d = false -> rd_vstr d = Some vb ->
+    spec_set_valuestring (h_str h) F (Some x) (Some sb) copy =
+    if (length (str_at h sb) <=? length (str_at h vb))%nat then (if decide (sb = vb) then (F, None) else (F, Some vb))
+    else match copy with
+         | Some nb => (set_data x (rd_set_vstr d (Some nb)) F, Some nb)
+         | None => (F, None)
+         end.
+  Proof. intros Hx Hs Hr Hv. unfold spec_set_valuestring. rewrite Hx. cbn [tdata]. by rewrite Hs, Hr, Hv. Qed.
+
+  (** the argument IS the node's valuestring: the overlap check refuses *)
+  Lemma cJSON_SetValuestring_alias h F x d cs vb copy :
+    WF h F -> find_tree x F = Some (T x d cs) ->
+    has_flag (rd_type d) c_cJSON_String = true -> is_ref d = false -> rd_vstr d = Some vb -> Readable h vb ->
+    spec_set_valuestring (h_str h) F (Some x) (Some vb) copy = (F, None) /\
+    cJSON_SetValuestring oracle (Some x) (Some vb) h = Ret (None, h).
+  Proof.
+    intros W Hx Hs Hr Hv HRv. split.
+    - rewrite (spec_svs_unfold h F x d cs vb vb copy Hx Hs Hr Hv). rewrite Nat.leb_refl. by rewrite decide_True.
+    - rewrite (svs_prefix h F x d cs vb vb W Hx Hs Hr Hv HRv HRv). rewrite Nat.leb_refl. by rewrite ptr_eqb_refl.
+  Qed.
+
+  (** the new string fits: copied in place; the block, its size and its owner stay *)
+  Lemma cJSON_SetValuestring_inplace h F x d cs vb sb (old : bytes) copy :
+    WF h F -> find_tree x F = Some (T x d cs) ->
+    has_flag (rd_type d) c_cJSON_String = true -> is_ref d = false -> rd_vstr d = Some vb ->
+    Readable h sb -> Readable h vb -> sb <> vb -> h_str h !! vb = Some old ->
+    length (str_at h sb) <= length (str_at h vb) ->
+    let new := str_at h sb ++ 0%Z :: skipn (S (length (str_at h sb))) old in
+    let h' := set_str h (<[vb := new]> (h_str h)) in
+    spec_set_valuestring (h_str h) F (Some x) (Some sb) copy = (F, Some vb) /\
+    cJSON_SetValuestring oracle (Some x) (Some sb) h = Ret (Some vb, h') /\
+    WF h' F /\ (NoLeak h F -> NoLeak h' F) /\ live_below h' = live_below h /\
+    Readable h' vb /\ str_at h' vb = str_at h sb /\ length new = length old.
+  Proof.
+    intros W Hx Hs Hr Hv HRs HRv Hne Hold Hlen new h'.
+    destruct (find_tree_live_dat _ _ _ _ _ W Hx) as [Hl Hd].
+    pose proof (find_tree_flat _ _ _ _ Hx) as Hn.
+    destruct (vstr_owned _ _ _ _ _ _ W Hn Hr Hv) as (Hvo & Hvx & Hvi).
+    assert (Hlv : vb ∈ h_live h) by (by apply (wf_owned_live _ _ W)).
+    assert (Hov : h_own h !! vb = Some Lib) by (by apply (wf_owned_lib _ _ W)).
+    assert (Hterm : existsb (Z.eqb 0) old = true).
+    { destruct HRv as (_ & s & H1 & H2). unfold bytes in *. rewrite Hold in H1. by injection H1 as <-. }
+    assert (Hv2 : str_at h vb = cstr old) by (unfold str_at; unfold bytes in *; by rewrite Hold).
+    assert (Hnewlen : length new = length old).
+    { unfold new. rewrite app_length. cbn [length]. rewrite skipn_length.
+      pose proof (cstr_length_lt _ Hterm). rewrite Hv2 in Hlen. lia. }
+    split.
+    { rewrite (spec_svs_unfold h F x d cs vb sb copy Hx Hs Hr Hv).
+      apply Nat.leb_le in Hlen. rewrite Hlen. by rewrite decide_False. }
+    split.
+    { rewrite (svs_prefix h F x d cs vb sb W Hx Hs Hr Hv HRs HRv).
+      apply Nat.leb_le in Hlen. rewrite Hlen. rewrite (ptr_eqb_Some_ne _ _ Hne).
+      rewrite (bindM_Ret _ _ _ _ _ (run_ld_str_plain _ _ _ Hlv Hold)).
+      rewrite (bindM_Ret _ _ _ _ _ (run_st_str_plain _ _ _ _ Hlv Hold Hov Hnewlen)).
+      assert (Hl' : x ∈ h_live h') by exact Hl.
+      assert (Hd' : h_dat h' !! x = Some (mk_dat d (tid <$> cs))) by exact Hd.
+      change (get_vstr (Some x) h' = Ret (Some vb, h')). rewrite (run_get_vstr_plain _ _ _ Hl' Hd'). cbn [nd_vstr mk_dat]. by rewrite Hv. }
+    split; [by destruct W; constructor|]. split; [intros NL b Hb; by apply NL|]. split; [reflexivity|].
+    split; [|split; [|done]].
+    - split; [exact Hlv|]. exists new. cbn. rewrite lookup_insert. split; [done|].
+      unfold new. rewrite existsb_app. cbn. by rewrite orb_true_r.
+    - unfold str_at at 1. cbn. rewrite lookup_insert. unfold new. apply cstr_app_zero_rest, str_at_nonzero.
+  Qed.
+
+  (** the new string does not fit: a copy is made, THEN the old block is released.  If the
+      request is refused NULL is returned and the old string is still in place. *)
+  Definition svs_realloc_heap h x vb (nd' : ndata) (s : bytes) : heap :=
+    let h2 := free1 vb (new_str h s) in set_dat h2 (<[x := nd']> (h_dat h2)).
+
+  Lemma cJSON_SetValuestring_realloc h F x d cs vb sb :
+    WF h F -> live_below h -> find_tree x F = Some (T x d cs) ->
+    has_flag (rd_type d) c_cJSON_String = true -> is_ref d = false -> rd_vstr d = Some vb ->
+    Readable h sb -> Readable h vb ->
+    length (str_at h vb) < length (str_at h sb) ->
+    (let nb := h_next h in
+     let d' := rd_set_vstr d (Some nb) in
+     let F' := set_data x d' F in
+     let h' := svs_realloc_heap h x vb (mk_dat d' (tid <$> cs)) (str_at h sb ++ [0%Z]) in
+     oracle (h_req h) = false /\
+     spec_set_valuestring (h_str h) F (Some x) (Some sb) (Some nb) = (F', Some nb) /\
+     cJSON_SetValuestring oracle (Some x) (Some sb) h = Ret (Some nb, h') /\
+     WF h' F' /\ live_below h' /\ (NoLeak h F -> NoLeak h' F') /\
+     Readable h' nb /\ str_at h' nb = str_at h sb /\ vb ∉ h_live h')
+    \/ (spec_set_valuestring (h_str h) F (Some x) (Some sb) None = (F, None) /\
+        cJSON_SetValuestring oracle (Some x) (Some sb) h = Ret (None, bump h) /\
+        clean_failure h (bump h) /\ refused oracle h (bump h)).
+  Proof.
+    intros W LB Hx Hs Hr Hv HRs HRv Hlen.
+    destruct (find_tree_live_dat _ _ _ _ _ W Hx) as [Hl Hd].
+    pose proof (find_tree_flat _ _ _ _ Hx) as Hn.
+    destruct (vstr_owned _ _ _ _ _ _ W Hn Hr Hv) as (Hvo & Hvx & Hvi).
+    assert (Hlv : vb ∈ h_live h) by (by apply (wf_owned_live _ _ W)).
+    assert (Hov : h_own h !! vb = Some Lib) by (by apply (wf_owned_lib _ _ W)).
+    assert (Hvfresh : (vb < h_next h)%positive) by (by apply (wf_fresh _ _ W)).
+    assert (Hxfresh : (x < h_next h)%positive).
+    { apply (WF_ids_fresh _ _ _ W). rewrite ids_flat. apply elem_of_list_fmap. by exists (x, d, tid <$> cs). }
+    assert (Hleb : (length (str_at h sb) <=? length (str_at h vb))%nat = false) by (apply Nat.leb_gt; lia).
+    rewrite (svs_prefix h F x d cs vb sb W Hx Hs Hr Hv HRs HRv). rewrite Hleb.
+    destruct (oracle (h_req h)) eqn:Ho.
+    { right. split; [by rewrite (spec_svs_unfold h F x d cs vb sb None Hx Hs Hr Hv), Hleb|].
+      rewrite (bindM_Ret _ _ _ _ _ (cJSON_strdup_fail _ _ _ HRs Ho)). cbn [is_null].
+      split; [done|]. split; [apply clean_failure_bump|]. exists (h_req h). cbn. split; [lia|done]. }
+    left. cbn zeta. set (nb := h_next h). set (d' := rd_set_vstr d (Some nb)). set (ks := tid <$> cs) in *.
+    set (s := str_at h sb ++ [0%Z]). set (h1 := new_str h s).
+    split; [done|].
+    split; [by rewrite (spec_svs_unfold h F x d cs vb sb (Some nb) Hx Hs Hr Hv), Hleb|].
+    (* the run *)
+    assert (Hl1 : x ∈ h_live h1) by (cbn; set_solver).
+    assert (Hd1 : h_dat h1 !! x = Some (mk_dat d ks)) by exact Hd.
+    assert (Hlv1 : vb ∈ h_live h1) by (cbn; set_solver).
+    assert (Hov1 : h_own h1 !! vb = Some Lib) by (cbn; rewrite lookup_insert_ne by (unfold nb; lia); done).
+    set (h2 := free1 vb h1).
+    assert (Hl2 : x ∈ h_live h2) by (cbn; set_solver).
+    assert (Hd2 : h_dat h2 !! x = Some (mk_dat d ks)) by (cbn; by rewrite lookup_delete_ne).
+    split.
+    { rewrite (bindM_Ret _ _ _ _ _ (cJSON_strdup_ok _ _ _ HRs Ho)). fold nb s h1. cbn [is_null].
+      rewrite (bindM_Ret _ _ _ _ _ (run_get_vstr_plain _ _ _ Hl1 Hd1)). cbn [nd_vstr mk_dat]. rewrite Hv.
+      cbn [is_null negb when]. rewrite bindM_assoc.
+      rewrite (bindM_Ret _ _ _ _ _ (run_get_vstr_plain _ _ _ Hl1 Hd1)). cbn [nd_vstr mk_dat]. rewrite Hv.
+      unfold cJSON_free. rewrite (bindM_Ret _ _ _ _ _ (run_free_block _ _ Hlv1 Hov1)). fold h2.
+      rewrite (bindM_Ret _ _ _ _ _ (run_set_vstr_plain _ _ _ (Some nb) Hl2 Hd2)). reflexivity. }
+    set (h' := svs_realloc_heap h x vb (mk_dat d' ks) s).
+    (* ownership before and after *)
+    pose proof (wf_nodup _ _ W) as ND.
+    apply find_tree_Some in Hx as [Hx _].
+    destruct (flat_set_data F x d cs ND Hx) as (FL & E1 & E2). specialize (E2 d'). fold ks in E1, E2.
+    set (kp := if is_const d then [] else opt_list (rd_key d)).
+    assert (Hos : owned_strs d = vb :: kp) by (unfold owned_strs; by rewrite Hr, Hv).
+    assert (Hos' : owned_strs d' = nb :: kp).
+    { unfold owned_strs. change (is_ref d') with (is_ref d). change (is_const d') with (is_const d). by rewrite Hr. }
+    assert (HownF : owned F ≡ₚ vb :: (x :: kp ++ owned_fl FL)).
+    { unfold owned. rewrite E1, owned_fl_cons. unfold owned_fn. cbn [fn_id fn_data fst snd]. rewrite Hos. cbn. apply perm_swap. }
+    assert (HownF' : owned (set_data x d' F) ≡ₚ nb :: (x :: kp ++ owned_fl FL)).
+    { unfold owned. rewrite E2, owned_fl_cons. unfold owned_fn. cbn [fn_id fn_data fst snd]. rewrite Hos'. cbn. apply perm_swap. }
+    pose proof (wf_owned_nodup _ _ W) as NDo. rewrite HownF in NDo. apply NoDup_cons in NDo as [Hvrest NDrest].
+    assert (Hrest : forall b, b ∈ x :: kp ++ owned_fl FL -> b ∈ owned F /\ b <> vb).
+    { intros b Hb. split; [rewrite HownF; by right|]. by intros ->. }
+    assert (Hnbfresh : nb ∉ owned F) by apply (WF_next_notin _ _ W).
+    assert (W' : WF h' (set_data x d' F)).
+    { apply (WF_set_data h h' F _ x d d' ks FL W E1 E2).
+      - by rewrite roots_set_data.
+      - cbn. apply delete_notin. rewrite (wf_lnk _ _ W). by apply heap_lnk_of_lookup_None.
+      - cbn. f_equal. apply delete_notin. rewrite (wf_dat _ _ W). by apply heap_dat_of_lookup_None.
+      - rewrite HownF'. apply NoDup_cons. split; [|done]. intros Hin. apply Hnbfresh. by apply Hrest.
+      - intros b Hb. rewrite HownF' in Hb. cbn. apply elem_of_cons in Hb as [->|Hb].
+        + split; [|split; [by rewrite lookup_insert|lia]]. apply elem_of_difference. split; [set_solver|].
+          intros Heq%elem_of_singleton. unfold nb in Heq. lia.
+        + destruct (Hrest b Hb) as [Hbo Hbv]. pose proof (wf_fresh _ _ W _ Hbo). split; [|split].
+          * apply elem_of_difference. split; [|by intros ?%elem_of_singleton].
+            apply elem_of_union. right. by apply (wf_owned_live _ _ W).
+          * rewrite lookup_insert_ne by (unfold nb; lia). by apply (wf_owned_lib _ _ W).
+          * lia.
+      - pose proof (wf_ref _ _ W) as HrF. rewrite E1 in HrF. by apply Forall_cons in HrF as [? _]. }
+    split; [exact W'|].
+    split.
+    { intros b Hb. cbn in Hb. apply elem_of_difference in Hb as [Hb _]. apply elem_of_union in Hb as [Hb|Hb].
+      - apply elem_of_singleton in Hb as ->. cbn. lia.
+      - pose proof (LB b Hb). cbn. lia. }
+    split.
+    { intros NL b Hb. rewrite HownF'. unfold lib_live in Hb. apply elem_of_filter in Hb as [Hb1 Hb2]. cbn in Hb1, Hb2.
+      apply elem_of_difference in Hb2 as [Hb2 Hb3].
+      destruct (decide (b = nb)) as [->|Hbn]; [by left|right].
+      assert (Hbo : b ∈ owned F).
+      { apply NL. apply elem_of_filter. rewrite lookup_insert_ne in Hb1 by done. split; [done|set_solver]. }
+      rewrite HownF in Hbo. apply elem_of_cons in Hbo as [->|Hbo]; [|done]. set_solver. }
+    split; [|split].
+    - split.
+      + cbn. apply elem_of_difference. split; [set_solver|]. intros Heq%elem_of_singleton. unfold nb in Heq. lia.
+      + exists s. cbn. rewrite lookup_delete_ne by (unfold nb; lia). rewrite lookup_insert. split; [done|].
+        unfold s. rewrite existsb_app. cbn. by rewrite orb_true_r.
+    - unfold str_at at 1. cbn. rewrite lookup_delete_ne by (unfold nb; lia). rewrite lookup_insert.
+      unfold s. apply cstr_app_zero, str_at_nonzero.
+    - cbn. set_solver.
+  Qed.
+End SetValuestring.
+
+(** with an allocator that never refuses, the reallocating branch succeeds *)
+Lemma cJSON_SetValuestring_realloc_total h F x d cs vb sb :
+  WF h F -> live_below h -> find_tree x F = Some (T x d cs) ->
+  has_flag (rd_type d) c_cJSON_String = true -> is_ref d = false -> rd_vstr d = Some vb ->
+  Readable h sb -> Readable h vb -> length (str_at h vb) < length (str_at h sb) ->
+  let nb := h_next h in
+  let F' := set_data x (rd_set_vstr d (Some nb)) F in
+  let h' := svs_realloc_heap h x vb (mk_dat (rd_set_vstr d (Some nb)) (tid <$> cs)) (str_at h sb ++ [0%Z]) in
+  cJSON_SetValuestring never (Some x) (Some sb) h = Ret (Some nb, h') /\ WF h' F' /\
+  str_at h' nb = str_at h sb /\ vb ∉ h_live h'.
+Proof.
+  intros W LB Hx Hs Hr Hv HRs HRv Hlen.
+  destruct (cJSON_SetValuestring_realloc never h F x d cs vb sb W LB Hx Hs Hr Hv HRs HRv Hlen)
+    as [(_ & _ & H1 & H2 & _ & _ & _ & H3 & H4)|(_ & _ & _ & H)]; [done|].
+  by apply refused_false in H.
+Qed.
+
+(** * value queries: pure reads (stated on the flat view: [(x, d, ks) ∈ flat F]) *)
+Lemma flat_live_dat h F x d (ks : list positive) :
+  WF h F -> (x, d, ks) ∈ flat F -> x ∈ h_live h /\ h_dat h !! x = Some (mk_dat d ks).
+Proof.
+  intros W Hn. split; [|by eapply WF_lookup_dat].
+  apply (WF_ids_live _ _ _ W). rewrite ids_flat. apply elem_of_list_fmap. by exists (x, d, ks).
+Qed.
+
+Lemma cJSON_IsString_sim h F x d (ks : list positive) :
+  WF h F -> (x, d, ks) ∈ flat F ->
+  cJSON_IsString (Some x) h = Ret ((Z.land (rd_type d) 255 =? c_cJSON_String)%Z, h).
+Proof.
+  intros W Hx. destruct (flat_live_dat _ _ _ _ _ W Hx) as [Hl Hd].
+  unfold cJSON_IsString, type_is. cbn [is_null]. by rewrite (bindM_Ret _ _ _ _ _ (run_get_type_plain _ _ _ Hl Hd)).
+Qed.
+Lemma cJSON_IsNumber_sim h F x d (ks : list positive) :
+  WF h F -> (x, d, ks) ∈ flat F ->
+  cJSON_IsNumber (Some x) h = Ret ((Z.land (rd_type d) 255 =? c_cJSON_Number)%Z, h).
+Proof.
+  intros W Hx. destruct (flat_live_dat _ _ _ _ _ W Hx) as [Hl Hd].
+  unfold cJSON_IsNumber, type_is. cbn [is_null]. by rewrite (bindM_Ret _ _ _ _ _ (run_get_type_plain _ _ _ Hl Hd)).
+Qed.
+Lemma cJSON_IsString_null h : cJSON_IsString None h = Ret (false, h).
+Proof. reflexivity. Qed.
+Lemma cJSON_IsNumber_null h : cJSON_IsNumber None h = Ret (false, h).
+Proof. reflexivity. Qed.
+
+Lemma cJSON_GetStringValue_sim h F x d (ks : list positive) :
+  WF h F -> (x, d, ks) ∈ flat F ->
+  cJSON_GetStringValue (Some x) h =
+  Ret (if (Z.land (rd_type d) 255 =? c_cJSON_String)%Z then rd_vstr d else None, h).
+Proof.
+  intros W Hx. destruct (flat_live_dat _ _ _ _ _ W Hx) as [Hl Hd].
+  unfold cJSON_GetStringValue. rewrite (bindM_Ret _ _ _ _ _ (cJSON_IsString_sim _ _ _ _ _ W Hx)).
+  destruct (Z.land (rd_type d) 255 =? c_cJSON_String)%Z; [|done]. cbn [negb].
+  by rewrite (run_get_vstr_plain _ _ _ Hl Hd).
+Qed.
+Lemma cJSON_GetStringValue_null h : cJSON_GetStringValue None h = Ret (None, h).
+Proof. reflexivity. Qed.
+
+Lemma cJSON_GetNumberValue_sim h F x d (ks : list positive) :
+  WF h F -> (x, d, ks) ∈ flat F ->
+  cJSON_GetNumberValue (Some x) h =
+  Ret (if (Z.land (rd_type d) 255 =? c_cJSON_Number)%Z then rd_vdbl d else S754_nan, h).
+Proof.
+  intros W Hx. destruct (flat_live_dat _ _ _ _ _ W Hx) as [Hl Hd].
+  unfold cJSON_GetNumberValue. rewrite (bindM_Ret _ _ _ _ _ (cJSON_IsNumber_sim _ _ _ _ _ W Hx)).
+  destruct (Z.land (rd_type d) 255 =? c_cJSON_Number)%Z; [|done]. cbn [negb].
+  unfold get_vdbl. by rewrite (bindM_Ret _ _ _ _ _ (run_ld_dat_plain _ _ _ Hl Hd)).
+Qed.
+Lemma cJSON_GetNumberValue_null h : cJSON_GetNumberValue None h = Ret (S754_nan, h).
+Proof. reflexivity. Qed.
+
+(** the node is found with its new data after a [set_data] *)
+Lemma flat_after_set_data F x d cs d' :
+  NoDup (ids F) -> find_tree x F = Some (T x d cs) -> (x, d', tid <$> cs) ∈ flat (set_data x d' F).
+Proof.
+  intros ND Hx. apply find_tree_Some in Hx as [Hx _].
+  destruct (flat_set_data F x d cs ND Hx) as (FL & _ & E2). rewrite (E2 d'). by left.
+Qed.
+
+(** what was set is what is read back *)
+Lemma get_after_set_number h F x d cs (n : dbl) :
+  WF h F -> find_tree x F = Some (T x d cs) -> (Z.land (rd_type d) 255 =? c_cJSON_Number)%Z = true ->
+  exists h', cJSON_SetNumberValue (Some x) n h = Ret (n, h') /\ cJSON_GetNumberValue (Some x) h' = Ret (n, h').
+Proof.
+  intros W Hx Ht. destruct (cJSON_SetNumberValue_sim h F x d cs n W Hx) as (_ & Hrun & W' & _).
+  eexists. split; [exact Hrun|].
+  rewrite (cJSON_GetNumberValue_sim _ _ _ _ _ W' (flat_after_set_data _ _ _ _ _ (wf_nodup _ _ W) Hx)).
+  cbn [rd_type rd_set_number rd_vdbl]. by rewrite Ht.
+Qed.
